@@ -16,7 +16,7 @@ COLORFUL_KINDS = ('svg', 'png', 'ppm')
 
 RGB_COLORS = ['red', 'green', 'navy', 'DarkBlue', '#0f0', '#123456', '#abcdef', '#000', '#fff', 'black', 'white',
               '#FFCC00', 'yellow']
-ALPHA_COLORS = ['#12345680', '#ff000040', '#0000ffcc', '#abcd']
+ALPHA_COLORS = ['#12345680', '#ff000040', '#0000ffcc', '#abcd', '#0000ffff', '#f00f', '#ff0000fe', '#00000000', '#FFFFFFFF']
 TUPLE_COLORS = [(255, 0, 0), (0, 0, 0), (12, 34, 56), (255, 255, 255)]
 TUPLE_ALPHA = [(255, 0, 0, 128), (0, 128, 0, 64)]
 
